@@ -64,6 +64,52 @@ def check(prop, tier, replay=None):
         obs_f = os.path.join(sd, 'obs.ndjson')
         C.run_sharded(kvh, 'proxy', cases_f, obs_f, extra=['-seed', str(C.seed())])
         obs = C.read_ndjson(obs_f)
+        # (2b) two scrapes at the same time: behaviours of ProxyPair.tla (interleavings of two ProxyStream instances)
+        # replayed with gated upstream bodies; every scrape must end as it does alone
+        pairs_f = os.path.join(sd, 'pairs.ndjson')
+        open(pairs_f, 'w').close()
+        npairs = 0
+        pstats = dict(states=0, transitions=0, overlapping=0, followed=0, tokens=0)
+        if not replay or 'pair' in json.load(open(replay)):
+            nsim = 400 if tier == 'quick' else 4000
+            pm = C.tlc(sd, 'MCProxyPair', 'pair.cfg', workers=1, simulate='num=%d' % nsim, depth=14, timeout=3000, cfg_text='''CONSTANTS
+  AbortAfterHeaders = %s
+  ResetIsEOF = %s
+  PairScenarios <- MCPairScenarios
+  OutFile = "pairs.ndjson"
+SPECIFICATION Spec
+INVARIANTS Inv_Pair Export
+CHECK_DEADLOCK FALSE
+''' % (MODEL_CONSTANTS['AbortAfterHeaders'], MODEL_CONSTANTS['ResetIsEOF']))
+            C.require_ok(pm, 'MCProxyPair')
+            pstats['states'], pstats['transitions'] = pm['distinct'], pm['generated']
+            seenp, plist = set(), []
+            for r in C.read_ndjson(pairs_f):
+                k = json.dumps(r, sort_keys=True)
+                if k not in seenp:
+                    seenp.add(k)
+                    plist.append(r)
+            if replay:
+                plist = [json.load(open(replay))['pair']]
+            for i, r in enumerate(plist):
+                r['n'] = i
+                for x in ('scA', 'scB'):
+                    r[x]['unit'] = r[x].get('unit') or rnd.choice([7, 40, 333, 5000])
+            C.write_ndjson(pairs_f, plist)
+            pobs_f = os.path.join(sd, 'pairobs.ndjson')
+            # few processes, many pairs each: the decoder pool of a process is shared by all its scrapes
+            C.run_sharded(kvh, 'proxypair', pairs_f, pobs_f, extra=['-seed', str(C.seed())], nproc=4)
+            byn = {r['n']: r for r in plist}
+            for po in C.read_ndjson(pobs_f):
+                if po['stuck']:
+                    raise C.Inconclusive('pair replay got stuck: %s' % json.dumps(po)[:300])
+                npairs += 1
+                pstats['overlapping'] += 1 if byn[po['n']]['overlap'] else 0
+                pstats['followed'] += po['followed']
+                pstats['tokens'] += po['tokens']
+                for x in 'AB':
+                    obs.append(dict(sc=po['sc' + x], out=po['out' + x], obs=po['obs' + x], pair=byn[po['n']]))
+            C.write_ndjson(obs_f, [dict(sc=o['sc'], out=o['out'], obs=o['obs']) for o in obs])
         # (3) conformance: the real outcome equals the outcome the specification predicts
         drift = []
         for o in obs:
@@ -82,17 +128,24 @@ def check(prop, tier, replay=None):
                 continue
             o = obs[v['idx'] - 1]
             sc = o['sc']
+            rp = dict(property=prop, case=dict(sc=sc, out=o['out']), observed=o['obs'], which=v['which'])
+            sig = dict(which=v['which'], kind=sc['fail']['kind'], stop=sc['stop'])
+            if 'pair' in o:
+                rp['pair'] = o['pair']
+                sig['concurrent'] = True
             violations.append(dict(
-                sig=dict(which=v['which'], kind=sc['fail']['kind'], stop=sc['stop']),
-                replay=dict(property=prop, case=dict(sc=sc, out=o['out']), observed=o['obs'], which=v['which']),
+                sig=sig,
+                replay=rp,
                 text='%s in scenario %s: observed %s' % (v['which'], json.dumps(sc, sort_keys=True), json.dumps(o['obs'], sort_keys=True))))
         cov = dict(states=mc['distinct'], transitions=mc['generated'],
                    traces_validated_against_impl=len(obs) - len(drift),
                    samples=[dict(scenario=o['sc'], model=o['out'], observed=o['obs']) for o in obs[:3]],
                    evaluations=len(obs), distinct_nontrivial=stats.get('nontrivial', {}).get(prop, 0),
+                   concurrent_pairs=npairs, concurrent_pair_stats=pstats,
                    rule='one evaluation = one scenario of the exhaustively enumerated space (body length <= %d units, every chunking, identity/gzip, '
                         'every failure kind at every offset, short writes, stop, assigned or not) replayed through the real Proxy.ServeHTTP with a scripted '
-                        'upstream body and a real HTTP client/server pair (or a scripted ResponseWriter for short writes) on the Prometheus side; unit sizes '
+                        'upstream body and a real HTTP client/server pair (or a scripted ResponseWriter for short writes) on the Prometheus side, or one of the two scrapes of a '
+                        'simulated behaviour of ProxyPair.tla (two scrapes through the same proxy, their request / read steps interleaved as the behaviour says by gating the upstream); unit sizes '
                         '%s bytes chosen by seed; non-trivial: successful scrapes (C12) / failed or stopped scrapes (C13), counted by TLC' % (maxlen, units),
                    exhaustive=(tier == 'thorough'), model_constants=MODEL_CONSTANTS,
                    explanation='TLC explores ProxyStream.tla over all scenarios and checks C12/C13 on the model; every (sampled in quick tier) terminal '
